@@ -32,7 +32,7 @@ class Config:
     muted: frozenset = frozenset({"except", "ctx"})
 
 
-BASE = Config(watch=frozenset({"execute_with_timeout", "on_timeout", "on_cancel"}), guards=frozenset({"execution.is_canceled"}))
+BASE = Config(watch=frozenset({"execute_with_timeout", "on_timeout", "on_cancel"}), guards=frozenset({"execution.is_canceled", "parent_id", "phase is not None", "downstream_stages", "not downstream_stages", "activated_downstreams"}))
 
 
 @dataclass
